@@ -463,7 +463,21 @@ func applyDefect(r *rand.Rand, c *gen.PI, first bool) (Defect, bool) {
 			c.In.Vars[name] = map[string]string{"account": "a", "asset": "USD", "number": "7", "monetary": "USD 7", "portion": "1/2", "string": "s"}[t]
 			return gen.Var(name)
 		}
-		switch r.IntN(4) {
+		switch r.IntN(5) {
+		case 4:
+			// arithmetic on something that is neither a number nor a monetary, on either side
+			sl := exprSlots(c, "amt")
+			if len(sl) == 0 {
+				return d, false
+			}
+			bad := core.Pick(r, []*gen.Expr{wrongVar("account", "asset", "portion", "string"), gen.Acc("a"), gen.Str("x"), gen.Asset("USD"), gen.Por("1/2")})
+			e := &gen.Expr{K: core.Pick(r, []string{"add", "sub"}), L: bad, R: gen.Num("1")}
+			if r.IntN(3) == 0 {
+				e.L, e.R = e.R, e.L
+			}
+			sl[r.IntN(len(sl))].set(e)
+			d.Allowed = []string{"wrong-type"}
+			return d, true
 		case 0:
 			// an allotment whose portion is a variable of another type (top level: always evaluated)
 			ss := stmtsOf(c, func(s *gen.Stmt) bool { return s.K == "send" })
